@@ -20,6 +20,41 @@ def native(script, args, root, timeout=600):
 
 
 _FALSIFY_CACHE = {}
+_RT_CACHE = {}
+
+
+def export_model_contracts(root):
+    """clause text of the model bundle as JSON for the native monitor (written next to the replays; regenerated per run)"""
+    sys.path.insert(0, os.path.join(VERIF, 'tools'))
+    import export_contracts
+    path = os.path.join(VERIF, 'replays', 'model_contracts.json')
+    os.makedirs(os.path.dirname(path), exist_ok=True)
+    json.dump(export_contracts.export('model', root), open(path, 'w'))
+    return path
+
+
+def run_rt_model(root, ob=None, timeout=600):
+    path = export_model_contracts(root)
+    tries = []
+    if ob is not None and ob.kind == 'ensures' and ':' in ob.name:
+        label = getattr(ob, 'base_name', ob.name).split(':', 1)[1].rsplit(']', 1)[0]
+        tries.append(['--func', ob.func, '--clause', label[:60]])
+    tries.append([])
+    last = None
+    for extra in tries:
+        key = (root, tuple(extra))
+        if key not in _RT_CACHE:
+            code, out, err = native('native/rt_model.py', [path] + extra, root, timeout)
+            try:
+                _RT_CACHE[key] = json.loads(out.strip().split('\n')[-1])
+            except Exception:
+                _RT_CACHE[key] = {'replayable': False, 'reproduced': None, 'error': (out + err)[-400:]}
+        last = _RT_CACHE[key]
+        if last.get('reproduced'):
+            last = dict(last, replay_cmd='python3-vt tools/export_contracts.py model %s > /tmp/mc.json && PYTHONPATH=%s /venv/bin/python %s /tmp/mc.json %s'
+                        % (root, root, os.path.join(VERIF, 'native/rt_model.py'), ' '.join("'%s'" % e if ' ' in e else e for e in extra)))
+            return last
+    return last
 FALSIFIABLE = {'C01', 'C02', 'C03', 'C04', 'C07', 'C08', 'C10', 'C11', 'C18', 'C19'}     # properties the scenario monitor of native/falsify.py can observe
 
 
@@ -42,6 +77,14 @@ def make_replay(pid, ob, root, repo, tier):
             rep['native'] = r
         except Exception:
             rep['native'] = {'replayable': False, 'reproduced': None, 'error': (out + err)[-500:]}
+    if bundle == 'model' and not rep['native'].get('reproduced'):
+        # run-time evaluation of the refuted clause itself around the real Model methods (native/rt_model.py), first filtered to the clause, then the whole contract set
+        try:
+            r = run_rt_model(root, ob)
+            if r is not None:
+                rep['native'] = r
+        except Exception as ex:
+            rep['native'] = dict(rep['native'], rt_error=repr(ex)[:300])
     if not rep['native'].get('reproduced'):
         # bounded falsification search with the executable property as monitor
         script = 'native/falsify.py'
@@ -68,3 +111,34 @@ def replay_file(pid, path, root):
         return 1 if code == 1 else 0
     print('no native replay available for this obligation (abstract path); re-run ./check %s to regenerate the obligation' % pid)
     return 0
+
+
+AXIOM_GROUPS = {'jsonrt': 'J', 'model': 'M', 'box': 'B', 'paramcheck': 'B', 'vecs': 'V', 'dirlen': 'Vd', 'precond': 'Sc', 'ledger': 'L', 'coord': 'B'}
+
+
+def thorough_native(bundles, root):
+    """thorough tier only: (1) seeded differential tests of the ASSUMED library facts used by these bundles, (2) run-time evaluation of the model bundle's contracts on the
+    real code.  Both are bounded cross-checks of the trusted base, never counted as proof; a failure is a soundness guard (exit 3), not a verdict about the property."""
+    out = {'guard': []}
+    groups = sorted({AXIOM_GROUPS[b] for b in bundles if b in AXIOM_GROUPS})
+    if groups:
+        code, o, err = native('native/axiom_tests.py', [','.join(groups)], root, 900)
+        try:
+            res = json.loads(o.strip().split('\n')[-1])
+            out['assumption_tests'] = {'kind': 'bounded (seeded random instances), NOT proof', 'groups': groups, 'axioms': res,
+                                       'instances': sum(v['instances'] for v in res.values()), 'failures': sum(v['failures'] for v in res.values())}
+            for k, v in res.items():
+                if v['failures']:
+                    out['guard'].append('assumed library fact fails natively: %s (first failing instance %s)' % (k, v.get('first_failure')))
+        except Exception:
+            out['assumption_tests'] = {'error': (o + err)[-400:]}
+            out['guard'].append('assumption tests could not be run')
+    if 'model' in bundles:
+        r = run_rt_model(root, None, 900)
+        out['runtime_contracts'] = {'kind': 'bounded (seeded workload), NOT proof', 'bundle': 'model', 'stats': (r or {}).get('stats'), 'not_evaluable': (r or {}).get('not_evaluable'),
+                                    'violation': (r or {}).get('inputs')}
+        if r is None or r.get('reproduced') is None:
+            out['guard'].append('run-time contract monitor could not be run: %s' % ((r or {}).get('error', '')[-200:]))
+        elif r.get('reproduced'):
+            out['runtime_contracts']['note'] = 'a contract clause is False at run time on the real code'
+    return out
